@@ -223,6 +223,55 @@ func runC19(c *Ctx) {
 
 	c.rule("C19.O4", "backlog and live events join without a gap: "+backlogDoc, func() { c.backlogThenRegister() })
 
+	c.rule("C19.X1", "one connected event per committed filter header: the notification loop of writeCFHeadersMsg visits every matching block header (indices 0..len-1, no early exit) and calls onBlockConnected on every iteration with the height startHeight+i", func() {
+		fn := c.fn("(*neutrino.blockManager).writeCFHeadersMsg")
+		obc := c.method("neutrino", "blockManager", "onBlockConnected")
+		calls := find(fn, callTo(obc))
+		if len(calls) != 1 || ir.LoopHeaderOf(calls[0].Block()) == nil {
+			c.fail(c.nm(fn)+" | notification loop", c.P.Pos(fn.Pos()), fmt.Sprintf("%d onBlockConnected call(s) in a loop, 1 tabled", len(calls)))
+			return
+		}
+		h := ir.LoopHeaderOf(calls[0].Block())
+		anc := c.method("headerfs", "BlockHeaderStore", "FetchHeaderAncestors")
+		isMatching := func(v ssa.Value) bool {
+			return ir.DerivesFrom(v, func(x ssa.Value) bool {
+				e, ok := x.(*ssa.Extract)
+				return ok && e.Index == 0 && valIsCallTo(anc)(e.Tuple)
+			})
+		}
+		c.fullRange(fn, h, "the notification loop", isMatching, 0, func(*ssa.Return) bool { return true })
+		var starts []start
+		for i, sc := range h.Succs {
+			if ir.LoopBlocks(h)[sc] {
+				starts = append(starts, atEdge(c, ir.Edge{From: h, Succ: i}, "next committed header"))
+			}
+		}
+		call := calls[0]
+		c.mustFollowIter(fn, "each committed header", starts, func(in ssa.Instruction) bool { return in == call }, "b.onBlockConnected(header, height)", nil, 1)
+		// height = startHeight + uint32(i)
+		lf := loopFormOf(h)
+		okH := false
+		if b, ok := argsOf(call)[1].(*ssa.BinOp); ok && b.Op == token.ADD && lf.phi != nil {
+			isStart := func(v ssa.Value) bool {
+				e, ok := v.(*ssa.Extract)
+				return ok && e.Index == 1 && valIsCallTo(anc)(e.Tuple)
+			}
+			isIdx := func(v ssa.Value) bool {
+				v = ir.Strip(v)
+				if cv, ok := v.(*ssa.Convert); ok {
+					v = ir.Strip(cv.X)
+				}
+				if lf.pre {
+					sb, ok := v.(*ssa.BinOp)
+					return ok && ir.Strip(sb.X) == ssa.Value(lf.phi)
+				}
+				return v == ssa.Value(lf.phi)
+			}
+			okH = (isStart(b.X) && isIdx(b.Y)) || (isStart(b.Y) && isIdx(b.X))
+		}
+		c.verdict(okH, c.nm(fn)+" | event height = startHeight + index", c.at(call), "startHeight + uint32(i)", "the height reported with a connected block is not startHeight plus the loop index")
+	})
+
 	c.rule("C19.W2", "no event is withheld from a subscriber: notifySubscribers hands every event it receives to every registered subscriber (no per-subscriber height filter: a subscriber's view after a reorg below its registration tip would otherwise miss re-connected blocks), and a subscription's bestHeight is fixed at creation", func() {
 		c.fanOutAll()
 	})
